@@ -367,7 +367,8 @@ def for_loops(fn):
     """[(next_call, switch, none_labels, some_labels)] for every `for` loop (Iterator::next in a ForLoop desugaring)"""
     out = []
     for c in fn.calls(r"Iterator>?::next$|::next$"):
-        if not (c.ex and any(e == "d:ForLoop" for e in c.ex)):
+        # `for` desugaring, or any `while let Some(x) = it.next()` form: the call sits on a cycle of the CFG
+        if not (c.ex and any(e == "d:ForLoop" for e in c.ex)) and c.node not in fn.reach([c.node], after=True):
             continue
         for sw in fn.discr_switches():
             if sw[1] and c.dest and sw[1][0] == c.dest[0] and len(sw[1]) == 1:
